@@ -3,6 +3,7 @@ package main
 // C12 — AVC records, samples, NAL units: implementation vs Lean model vs ISO spec writer.
 
 import (
+	"bytes"
 	"fmt"
 	"strings"
 
@@ -303,8 +304,28 @@ func c12(c *h.Ctx) {
 		in := fmt.Sprintf("avc.sample.enc %d %s", size, nalusStr(ns))
 		c.Hold(err == nil, "sample.marshal_ok", in, fmt.Sprint(err), "nil")
 		c.Eq("sample.enc", h.Trunc(in, 300), h.Hex(out), c.O.Call("avc.sample.enc", fmt.Sprint(size), nalusStr(ns)))
+		// the layout ISO/IEC 14496-15 5.3.4.2 prescribes, written here independently: per NAL unit a big-endian length of
+		// `size` bytes (header byte included), the header byte, the payload
+		var want []byte
+		fits := true
+		for _, n := range ns {
+			l := len(n.Data) + 1
+			fits = fits && (size >= 4 || l < 1<<(8*uint(size)))
+			for k := size - 1; k >= 0; k-- {
+				want = append(want, byte(l>>(8*uint(k))))
+			}
+			want = append(append(want, uint8(n.NALRefIDC)<<5|uint8(n.NALUType)), n.Data...)
+		}
+		if fits {
+			c.Hold(bytes.Equal(out, want), "sample.is_layout", h.Trunc(in, 300), h.Trunc(h.Hex(out), 300), h.Trunc(h.Hex(want), 300))
+		}
 		dec := avcSampleDec(size, out)
 		c.Hold(dec == "ok "+nalusStr(ns), "sample.roundtrip", h.Trunc(in, 300), h.Trunc(dec, 200), "ok "+h.Trunc(nalusStr(ns), 200))
+		// a sample written by an independent conformant writer is read as its NAL units
+		if fits && len(ns) > 0 {
+			dec2 := avcSampleDec(size, want)
+			c.Hold(dec2 == "ok "+nalusStr(ns), "sample.spec_read", h.Trunc(in, 300), h.Trunc(dec2, 200), "ok "+h.Trunc(nalusStr(ns), 200))
+		}
 		c.Case(fmt.Sprintf("sample/size=%d,n=%d", size, k), in, k > 0)
 	}
 
